@@ -43,10 +43,11 @@ def main():
         os.makedirs(demo_dir, exist_ok=True)
         demo = os.path.join(demo_dir, "zz_seeded_demo_test.go")
         shutil.copy(os.path.join(src, "demo_test.go"), demo)
-        rc1, out1 = sh("go test -count=1 ./%s/ 2>&1 | tail -15" % loc, wt)
+        race = "-race " if meta.get("race") else ""
+        rc1, out1 = sh("go test %s-count=1 ./%s/ 2>&1 | tail -15" % (race, loc), wt)
         rec["confirmed"]["demo_fails_with_patch"] = "FAIL" in out1
         sh("git checkout -- .", wt)
-        rc2, out2 = sh("go test -count=1 ./%s/ 2>&1 | tail -5" % loc, wt)
+        rc2, out2 = sh("go test %s-count=1 ./%s/ 2>&1 | tail -5" % (race, loc), wt)
         rec["confirmed"]["demo_passes_without_patch"] = ("FAIL" not in out2) and ("ok" in out2)
         rec["confirmed"]["demo_output_with_patch"] = out1[-600:]
     finally:
